@@ -29,6 +29,58 @@ def summary(o):
     return {k: o[k] for k in ("acts", "h", "u", "m", "content", "timer", "dropped", "exc")}
 
 
+LIMIT = 1024  # longest request line the protocols allow, CRLF included (Gemini / Titan specification)
+
+
+def limit_streams():
+    """byte streams whose request line is one byte shorter than, exactly as long as, and one byte longer than the longest legal line
+    (Gemini, Gemini with multi-byte characters, Titan with content, Titan delete), each without and with bytes after the request"""
+    out = []
+    for ln in (LIMIT - 3, LIMIT - 2, LIMIT - 1):   # length of the line without its CRLF
+        g = b"gemini://h/"
+        e = "gemini://h/".encode() + "\u00e9".encode() * ((ln - len(g)) // 2)
+        for line, tails in ((g + b"a" * (ln - len(g)), (b"", b"GARBAGE\r\n")),
+                            (e + b"a" * (ln - len(e)), (b"", b"\r\n")),
+                            (b"titan://h/" + b"f" * (ln - 17) + b";size=2", (b"ab", b"abXY")),
+                            (b"titan://h/" + b"f" * (ln - 17) + b";size=0", (b"", b"Z"))):
+            assert len(line) == ln
+            for k, tail in enumerate(tails):
+                out.append((line + b"\r\n" + tail, k == 0))
+    return out
+
+
+def line_end_cuts(stream: bytes):
+    """segmentations (lists of cut offsets) whose read boundaries fall around the end of the request line: before the CR, between CR and
+    LF, after the LF, one byte on either side; one, two and three cuts"""
+    e = stream.find(b"\r\n")
+    if e < 0:
+        e = max(0, len(stream) - 2)
+    pos = [p for p in (e - 1, e, e + 1, e + 2, e + 3) if 0 < p < len(stream)]
+    out = [[p] for p in pos]
+    out += [[a, b] for a, b in itertools.combinations(pos, 2)]
+    if len(pos) >= 3:
+        out.append([p for p in (e, e + 1, e + 2) if 0 < p < len(stream)])
+    return out
+
+
+def segs_of(case):
+    """every segmentation of the case as a list of hex chunks: those spelled out (`segs`) followed by those given by their cut offsets (`cuts`)"""
+    out = list(case.get("segs", []))
+    s = bytes.fromhex(case["stream"])
+    for cs in case.get("cuts", []):
+        parts, p = [], 0
+        for c in list(cs) + [len(s)]:
+            parts.append(s[p:c].hex())
+            p = c
+        out.append(parts)
+    return out
+
+
+def show_seg(seg):
+    """a segmentation, readable: the length of every read, and the bytes of the short ones"""
+    return "[" + ", ".join(x if len(x) <= 24 else f"{x[:8]}…{x[-8:]}({len(x) // 2}B)" for x in seg[:8]) + (", …" if len(seg) > 8 else "") + "]"
+
+
 class Seg(ConnFamily):
     """the same byte stream under many segmentations (and the same continuation of other events)"""
 
@@ -40,9 +92,10 @@ class Seg(ConnFamily):
     def gen(self, rng: random.Random, n: int):
         shorts = [b"gemini://h/\r\n", b"titan://h/f;size=2\r\nab", b"titan://h/f;size=0\r\n", b"titan://h/f;size=2\r\nabXY", b"gemini://h/\r\nGARBAGE\r\n",
                   b"\r\n", b"gemini://h/a\r", b"http://h/\r\n", b"titan://h/f;size=3\r\nab", b"titan://h/f;size=11\r\nhello world", b"titan://h/f;size=9\r\n12345678"]
-        first = list(self.share(range(len(shorts) * 2)))
-        for j in range(n):
-            i = first[j] if j < len(first) else len(shorts) * 2 + j
+        limits = limit_streams()
+        first = list(self.share(range(len(shorts) * 2 + len(limits))))
+        for j in range(max(n, len(first))):
+            i = first[j] if j < len(first) else len(shorts) * 2 + len(limits) + j
             mw = rng.random() < 0.4
             up = rng.random() < 0.7
             hk = rng.choice(["s", "a", "a", "r"])
@@ -64,6 +117,16 @@ class Seg(ConnFamily):
                         parts.append(s[12:])
                     segs.append([x.hex() for x in parts])
                 stream = s
+                cuts = []
+            elif i < len(shorts) * 2 + len(limits):
+                # a request line at the size limit: the whole stream, EVERY one-cut segmentation (or, for the variant with trailing
+                # bytes, every one-cut segmentation of the last 40 bytes), and the two/three-cut ones around the line end
+                stream, every = limits[i - len(shorts) * 2]
+                m = len(stream)
+                segs = [[stream.hex()]]
+                cuts = [[c] for c in (range(1, m) if every else range(max(1, m - 40), m))]
+                cuts += [c for c in line_end_cuts(stream) if len(c) > 1]
+                cuts.append(list(range(max(1, m - 12), m)))  # the last bytes one by one
             else:
                 line = rng.choice(LINES)
                 tail = b"" if rng.random() < 0.3 else bytes(rng.randrange(256) for _ in range(rng.randint(0, 20)))
@@ -83,6 +146,7 @@ class Seg(ConnFamily):
                         p = c
                     segs.append([x.hex() for x in parts])
                 segs.append([bytes([b]).hex() for b in stream[:40]] + ([stream[40:].hex()] if m > 40 else []))  # byte by byte
+                cuts = line_end_cuts(stream)  # read boundaries around the end of the request line
             rest = []
             if mw:
                 rest.append(rng.choice([["ma"], ["ma"], ["mr"], ["md", "53 no\r\n"]]))
@@ -92,14 +156,21 @@ class Seg(ConnFamily):
                 rest.append(rng.choice([["t"], ["l"], ["d", "585858"], ["d", "0d0a"]]))
             if rng.random() < 0.3:
                 rest.append(rng.choice([["ua", gen_resp(rng)], ["ha", gen_resp(rng)], ["d", "7a"]]))
-            yield {"mw": mw, "up": up, "handler": handler, "stream": stream.hex(), "segs": segs, "rest": rest}
+            yield {"mw": mw, "up": up, "handler": handler, "stream": stream.hex(), "segs": segs, "cuts": cuts, "rest": rest}
 
     def _case(self, case, seg):
         return {"mw": case["mw"], "up": case["up"], "handler": case["handler"], "evs": [["d", x] for x in seg] + case["rest"]}
 
     def impl(self, case):
+        # `runs`: the distinct outcomes, that of the first segmentation first; `ix[i]`: which of them segmentation i produced
         loop = get_loop()
-        return {"runs": [summary(loop.run_until_complete(sim.run_conn(loop, self._case(case, seg)))) for seg in case["segs"]]}
+        runs, ix = [], []
+        for seg in segs_of(case):
+            r = summary(loop.run_until_complete(sim.run_conn(loop, self._case(case, seg))))
+            if r not in runs:
+                runs.append(r)
+            ix.append(runs.index(r))
+        return {"runs": runs, "ix": ix}
 
     def model(self, case):
         return sim.enc_case(self._case(case, [case["stream"]]))
@@ -111,22 +182,39 @@ class Seg(ConnFamily):
         return all(ConnFamily.same(self, exp, r) for r in obs["runs"])
 
     def oracle(self, case, obs):
-        runs = obs["runs"]
-        for i, r in enumerate(runs):
+        runs, ix = obs["runs"], obs["ix"]
+        segs = segs_of(case)
+        for i, k in enumerate(ix):
+            r = runs[k]
             if r["h"] + r["u"] > 1:
-                return ("handler-twice", f"segmentation {case['segs'][i][:6]}…: handler invoked {r['h']}x, upload handler {r['u']}x")
-        first = runs[0]
-        for i, r in enumerate(runs[1:], 1):
+                return ("handler-twice", f"segmentation {show_seg(segs[i])}: handler invoked {r['h']}x, upload handler {r['u']}x")
+        first = runs[ix[0]]
+        for i, k in enumerate(ix):
+            r = runs[k]
             a = {k: first[k] for k in ("acts", "h", "u", "m", "content")}
             b = {k: r[k] for k in ("acts", "h", "u", "m", "content")}
             if a != b:
-                return ("seg-dependent", f"outcome differs between segmentation {case['segs'][0][:4]} and {case['segs'][i][:6]}: {str(a)[:200]} vs {str(b)[:200]}")
+                return ("seg-dependent", f"outcome differs between segmentation {show_seg(segs[0])} and {show_seg(segs[i])} of the same {len(case['stream']) // 2} bytes: "
+                        f"{str(a)[:200]} vs {str(b)[:200]}")
         return None
+
+    def shrink(self, case, bad):
+        """keep the first segmentation and the one segmentation that fails against it"""
+        segs = segs_of(case)
+        for i in range(1, len(segs)):
+            cand = {k: v for k, v in case.items() if k != "cuts"}
+            cand["segs"] = [segs[0], segs[i]]
+            try:
+                if bad(cand):
+                    return cand
+            except Exception:  # noqa: BLE001
+                pass
+        return case
 
     def key(self, case, obs):
         r = obs["runs"][0]
         ok, what = sim.wellformed_trace(r["acts"])
-        return f"{what}|h{r['h']}u{r['u']}m{r['m']}|segs{min(len(case['segs']), 20)}"
+        return f"{what}|h{r['h']}u{r['u']}m{r['m']}|segs{min(len(obs['ix']), 20)}"
 
 
 class Late(ConnFamily):
@@ -159,6 +247,38 @@ class PumpSeg(PumpFamily):
     quick_n = 100
     thorough_n = 3000
 
+    @staticmethod
+    def edge_specs():
+        """read boundaries at the extremes of the TLS byte stream, where random offsets hardly ever fall: a first read of only 1 … 6 bytes
+        (inside the 5-byte header of the very first record), the first bytes one by one, the last byte of a flight on its own, and the
+        same around the records that follow the first flight (end of the handshake, application data, close_notify)"""
+        out = [{"f1": [[0, k]]} for k in range(1, 7)]
+        out.append({"f1": [[0, -1]]})
+        out.append({"f1": [[0, k] for k in range(1, 13)]})
+        for ri in (0, 1, 2, -1, -2):
+            for off in (1, 5, -1):
+                out.append({"s": [[ri, off]]})
+        for off in (0, 1, 5, -1):
+            out.append({"s": [[ri, off] for ri in range(12)]})
+        out.append({"f1": [[0, 1]], "s": [[0, 1]]})
+        out.append({"f1": [[0, 5]], "s": [[ri, 5] for ri in range(12)]})
+        out.append({"f1": [[0, 1], [0, -1]], "s": [[0, 1], [-1, -1]]})
+        return out
+
+    def gen(self, rng, n):
+        from .pumpfam import gen_pump_case
+
+        specs = self.edge_specs()
+        first = list(self.share(specs))
+        for j in range(max(n, len(first))):
+            c = gen_pump_case(rng)
+            if j < len(first):
+                c["edgecuts"] = first[j]
+            elif rng.random() < 0.25:
+                # random boundaries near record edges: record index x offset from the start / the end of that record
+                c["edgecuts"] = {rng.choice(["f1", "s"]): [[rng.randint(-3, 6), rng.choice([0, 1, 2, 3, 4, 5, 6, -1, -2])] for _ in range(rng.randint(1, 4))]}
+            yield c
+
     def impl(self, case):
         from ..sim import pump as P
         from .srvfam import get_loop
@@ -166,9 +286,11 @@ class PumpSeg(PumpFamily):
         loop = get_loop()
         whole = dict(case)
         whole["maxcuts"] = 0
+        whole.pop("edgecuts", None)
         a = loop.run_until_complete(P.run_pump(loop, case))
         b = loop.run_until_complete(P.run_pump(loop, whole))
         a["uncut"] = {k: b[k] for k in ("plain", "h", "u", "m", "content", "tcpclosed")}
+        a["uncut_readlens"] = b.get("readlens")
         return a
 
     def oracle(self, case, obs):
@@ -177,8 +299,13 @@ class PumpSeg(PumpFamily):
             return v
         a = {k: obs[k] for k in ("plain", "h", "u", "m", "content", "tcpclosed")}
         if a != obs["uncut"]:
-            return ("seg-dependent", f"outcome depends on how the TLS byte stream was cut: {str(a)[:200]} vs uncut {str(obs['uncut'])[:200]}")
+            return ("seg-dependent", f"outcome depends on how the TLS byte stream was cut: delivered in reads of {obs.get('readlens')} bytes {str(a)[:200]} "
+                    f"vs in reads of {obs.get('uncut_readlens')} bytes {str(obs['uncut'])[:200]}")
         return None
+
+    def key(self, case, obs):
+        e = case.get("edgecuts")
+        return PumpFamily.key(self, case, obs) + ("|edge:" + "+".join(sorted(e)) if e else "")
 
 
 FAMILIES = [Seg(), Late(), PumpSeg()]
